@@ -187,6 +187,9 @@ type reg struct {
 	win     string
 	revoked bool
 	cache   tls.ClientSessionCache // TLS session tickets the owner's client collected with this certificate
+	// cacheUses: connections made so far with that session cache (from the second one on the client
+	// resumes a session if the gateway handed out a ticket)
+	cacheUses int
 }
 
 func regKey(owner string, serial *big.Int) string { return owner + "|" + serial.String() }
